@@ -54,7 +54,7 @@ def main(ck):
             c['forms'] = [f for f in ic.FORMS if not (f == 'csv' and c['type'] == 'String' and c['text'] == '')]
             cases.append(c)
         for kind in ig.STRUCT_KINDS:
-            for _ in range(0 if (os.environ.get('VERIF_INPUT_FILTER') and 'table' not in os.environ['VERIF_INPUT_FILTER'].split(',')) else 2 if ck.quick() else 5):
+            for _ in range(0 if (os.environ.get('VERIF_INPUT_FILTER') and 'table' not in os.environ['VERIF_INPUT_FILTER'].split(',')) else int(os.environ.get('VERIF_INPUT_NSTRUCT') or (2 if ck.quick() else 5))):
                 c = ig.structural_case(ck.rng, kind)
                 c.update(type='table', vclass=kind, role='-', forms=ic.FORMS)
                 cases.append(c)
